@@ -93,7 +93,9 @@ func C07(c *vf.Check) {
 		c.Add("compiler_runs", int64(run.CompilerRuns))
 	}
 	runOne("opt", tier(c, "3", "4"), tier(c, "2", "3"), 5, srcOpts{Opt: true})
+	runOne("optx", tier(c, "2", "3"), "2", 4, srcOpts{Opt: true})
 	runOne("expr", tier(c, "2", "3"), "2", 4, srcOpts{})
+	runOne("box", tier(c, "3", "4"), "2", 5, srcOpts{Box: true})
 	runOne("ctl", tier(c, "2", "3"), tier(c, "2", "3"), 5, srcOpts{})
 	c.Cov["programs"] = int64(total)
 	c.Cov["disagreements_checked"] = int64(diff)
@@ -103,7 +105,7 @@ func C07(c *vf.Check) {
 	c.Cov["evaluations"] = int64(compared)
 	c.Cov["distinct_nontrivial"] = int64(len(nontrivial))
 	c.Cov["samples_note"] = "see samples"
-	c.Cov["rule"] = "every program of F_opt (closures of eta shape: function variable as loop condition reassigned in the body, method value with reassigned receiver, wrappers of a package function / generic instance / builtin / conversion), F_expr (expression shapes of yielded values) and F_ctl up to the size bound x tapes: the unoptimised stage (kept by the verif hook) and the optimised output are built and run on the same drivers and their per-call traces (values + effect interleaving) compared; an output that does not build while the stage builds is a violation too"
+	c.Cov["rule"] = "every program of F_opt (closures of eta shape: function variable as loop condition reassigned in the body, method value with reassigned receiver, wrappers of a package function / generic instance / builtin / conversion), F_expr (expression shapes of yielded values), F_box (yields of freshly allocated objects &box{..}, element type *box: a literal-looking composite is not a literal) and F_ctl up to the size bound x tapes: the unoptimised stage (kept by the verif hook) and the optimised output are built and run on the same drivers and their per-call traces (values + effect interleaving) compared; an output that does not build while the stage builds is a violation too"
 	c.Cov["exhaustive"] = true
 	c.Assumptions = append(c.Assumptions, "the stage copy still imports the API that nothing uses after rewriting (import clean-up is part of the optimiser): exactly the imports `go build` reports as unused are stripped from the COPY of the stage; the optimised output is never touched")
 }
